@@ -10,7 +10,7 @@ from .common import uncodes, guarded
 SIGMA1 = ['a', ' ', '\n', '\\', '{', '}', '[', ']', '$', '%', '~', '-', '*']
 SIGMA2 = ['\\begin{e}', '\\end{e}', '\\begin', '\\end', '\\(', '\\)', '\\[', '\\]']
 K_ATOMS = SIGMA1 + SIGMA2 + ['\\m', '\\o', '\\s', '\\f', '\\t', '\\q', '\\z', '\\\\', '\\v', '\\r', '\\d', '\\c',
-                             '\\begin{q}', '\\end{q}', '(', ')', '<', '>', '+', '!', '\\N', '\\N{a}']
+                             '\\begin{q}', '\\end{q}', '(', ')', '<', '>', '+', '!', '\\N', '\\N{a}', '\\X']
 D_ATOMS = SIGMA1 + SIGMA2 + ['\\textbf', '\\frac', '\\ensuremath', '\\text', '\\item', '\\verb', '\\sqrt', '\\\\',
                              '\\begin{equation}', '\\end{equation}', '\\begin{itemize}', '\\end{itemize}',
                              '\\begin{verbatim}', '\\end{verbatim}', '|']
